@@ -904,7 +904,7 @@ def main(tier='quick', seed=0, repo=None):
         'executor_faults_injected': {k[15:]: v for k, v in stats.items() if k.startswith('executor_fault_')},
         'abandons': {k[8:]: v for k, v in stats.items() if k.startswith('abandon_')},
         'runs_on_baton_threads': stats['threads_runs'], 'thread_switches': stats['thread_switches'],
-        'observations_not_judged': dict(obs), 'violating_checks': stats['violating_checks'], 'distinct_violating_statements': len(found_sigs),
+        'observations_not_judged': dict(obs),
         'runs_per_hour': int(stats['runs'] / max(wall, 1e-6) * 3600),
         'components': {'real': ['QueryPlanner / PreparedStatementPlanner / planner.utils (working tree)', 'parser (mindsdb dialect)'],
                        'stub': ['executor answering GetTableColumns / GetPredictorColumns', 'client sessions'],
